@@ -35,4 +35,5 @@ EXTRAS = [
     lambda rep, fb, tier: __import__("vf.rules.pyrules3", fromlist=["x"]).rule_py_searchsorted_siblings(rep),
     lambda rep, fb, tier: __import__("vf.rules.pyrules4", fromlist=["x"]).rule_py_pack_reenters(rep),
     lambda rep, fb, tier: __import__("vf.rules.pyrules4", fromlist=["x"]).rule_py_depth_relative_wrap(rep),
+    lambda rep, fb, tier: __import__("vf.rules.lints3", fromlist=["x"]).rule_range_same_base(rep, fb),
 ]
